@@ -271,6 +271,68 @@ func TestC01(t *testing.T) {
 			run("kf-D3", ty, nonEmptyVal(ty, gb), cfg)
 		}
 	}
+	// a chain of mutations in which one view object is used as a cursor over several trees:
+	// append, re-point the same view at another list of the same length (SetBacking), append
+	// again, ... (scripted pattern, then random histories with re-pointing)
+	withCfg("sha", func(h tree.HashFn) {
+		gc := &gen{r: newRng(111), noBool: true, maxElem: 9}
+		lists := []*Ty{
+			{Kind: "list", Elem: &Ty{Kind: "u", N: 1}, N: 80}, {Kind: "list", Elem: &Ty{Kind: "u", N: 2}, N: 1 << 20},
+			{Kind: "list", Elem: &Ty{Kind: "u", N: 8}, N: 12}, {Kind: "list", Elem: &Ty{Kind: "u", N: 32}, N: 12},
+			{Kind: "bitlist", N: 300}, {Kind: "bitlist", N: 1 << 30},
+			{Kind: "list", Elem: &Ty{Kind: "cont", Fields: []*Ty{{Kind: "u", N: 1}, {Kind: "u", N: 8}}}, N: 12},
+			{Kind: "list", Elem: &Ty{Kind: "list", Elem: &Ty{Kind: "u", N: 1}, N: 4}, N: 1 << 32},
+		}
+		rounds := 6
+		if thorough() {
+			rounds = 60
+		}
+		for _, ty := range lists {
+			et := ty.Elem
+			if ty.Kind == "bitlist" {
+				et = &Ty{Kind: "bool"}
+			}
+			for k := 0; k < rounds; k++ {
+				a := gc.val(ty)
+				b := gc.val(ty)
+				// the other list is as long as this one will be after its first append (or equally
+				// long, or one shorter)
+				d := k%3 - 1 // -1, 0, +1 relative to len(a)+1
+				if ty.Kind == "bitlist" {
+					for len(b.Bits) < len(a.Bits)+1+d {
+						b.Bits = append(b.Bits, gc.r.Intn(2) == 0)
+					}
+					if n := len(a.Bits) + 1 + d; n >= 0 && n < len(b.Bits) {
+						b.Bits = b.Bits[:n]
+					}
+				} else {
+					for len(b.Seq) < len(a.Seq)+1+d {
+						b.Seq = append(b.Seq, gc.val(et))
+					}
+					if n := len(a.Seq) + 1 + d; n >= 0 && n < len(b.Seq) {
+						b.Seq = b.Seq[:n]
+					}
+				}
+				if uint64(len(b.Seq)) > ty.N || uint64(len(b.Bits)) > ty.N {
+					continue
+				}
+				lit := func() srcSpec { return srcSpec{kind: "lit", t: et, v: gc.val(et)} }
+				ops := []hop{{kind: "new", t: ty, v: b}, {kind: "append", h: 0, src: lit()}, {kind: "repoint", h: 0, i: 1},
+					{kind: "append", h: 0, src: lit()}, {kind: "htr", h: 0}, {kind: "append", h: 1, src: lit()}, {kind: "repoint", h: 1, i: 0},
+					{kind: "pop", h: 1}, {kind: "append", h: 1, src: lit()}, {kind: "append", h: 0, src: lit()}, {kind: "htr", h: 1}, {kind: "htr", h: 0}, {kind: "ser", h: 0}, {kind: "len", h: 0}}
+				if k%2 == 1 {
+					ops = append([]hop{{kind: "htr", h: 0}}, ops...)
+				}
+				s := &hstate{h: h, count: &hashCalls}
+				root, err := buildView(ty, a)
+				if err != nil {
+					continue
+				}
+				s.push(ty, root)
+				histCase(out, "cursor", "sha", ty, a, "ctor", ops, runScript(s, ops))
+			}
+		}
+	})
 	if out.n == 0 {
 		t.Fatal("no cases")
 	}
